@@ -21,9 +21,9 @@ EXPLANATION = ('CrossHair explores the real parsing glue over every document sha
 
 TOKENS = ('T154N-R97W', 'Township 154 North, Range 97 West', 'Sec 14', 'Section 14:', 'Sections 1 - 3:', 'of', 'NE/4',
           'N/2 of Lot 1', 'Lots 1(38.2) through 3', ':', '§', '154', 'ALL', 'less and except the well', '\n', 'T2N-R2W',
-          'Lot', 'P.M.', 'Sec', 'N½ of the', '(', '1/2', 'thru')
+          'Lot', 'P.M.', 'Sec', 'N½ of the', '(', '1/2', 'thru', 'TIS4N-R97W', 'T15|N-R9]W', 'Township 1o4 North Range 9i West')
 TOK_Q = (0, 2, 3, 4, 5, 6, 7, 9, 10, 18)
-CONFIGS = ('', 'sec_colon_required', 'sec_colon_cautious', 'segment', 'sec_within', 'ocr_scrub,clean_qq,parse_qq',
+CONFIGS = ('', 'sec_colon_required', 'ocr_scrub,clean_qq,parse_qq', 'segment', 'sec_within', 'sec_colon_cautious',
            'copy_all', 'desc_STR,parse_qq', 'S_desc_TR,segment,sec_within', 'TR_desc_S,qq_depth.1,parse_qq',
            's,e,break_halves,qq_depth_min.1,qq_depth_max.3,parse_qq')
 
@@ -195,6 +195,122 @@ def ob_args(ob):
     return from_explore(st, info, mk)
 
 
+def group_alphabet(pattern, name):
+    """characters admitted by the (single, repeated character class) body of a named group of a live pattern"""
+    from engine import rx
+    gi = pattern.groupindex[name]
+
+    def find(nodes):
+        for op, arg in nodes:
+            if op is rx.SUBPATTERN:
+                if arg[0] == gi:
+                    return arg[3]
+                r = find(arg[3])
+                if r is not None:
+                    return r
+            elif op is rx.BRANCH:
+                for b in arg[1]:
+                    r = find(b)
+                    if r is not None:
+                        return r
+            elif op in (rx.MAX_REPEAT, rx.MIN_REPEAT):
+                r = find(arg[2])
+                if r is not None:
+                    return r
+        return None
+    body = find(rx.parse(pattern))
+    chars = set()
+
+    def collect(nodes):
+        for op, arg in nodes:
+            cs = rx.node_chars(op, arg, pattern.flags)
+            if cs is not None:
+                chars.update(cs)
+            elif op is rx.BRANCH:
+                for b in arg[1]:
+                    collect(b)
+            elif op in (rx.MAX_REPEAT, rx.MIN_REPEAT):
+                collect(arg[2])
+            elif op is rx.SUBPATTERN:
+                collect(arg[3])
+    collect(body)
+    return ''.join(sorted(chars))
+
+
+def ob_unpack_twprge(ob):
+    """real unpack_twprge / twprge_natural_to_short on match objects whose number groups are ANY string the live pattern's
+    character class admits (symbolic, length <= L), directions present or absent, ocr_scrub on/off: never raises, and the
+    result has the shape T<x><D>-R<y><E>"""
+    from engine.xh import explore, choose
+    import pytrs.parser.rgxlib as R
+    from pytrs.parser.unpack import unpack_twprge, twprge_natural_to_short
+    pname = ob.params['pattern']
+    pat = getattr(R, pname)
+    L = ob.params['L']
+    alpha_t = group_alphabet(pat, 'twpnum')
+    alpha_r = group_alphabet(pat, 'rgenum')
+    has_edge = 'rgenum_edgecase_rge2' in pat.groupindex
+    dirs_ns = (None, 'N', 's', 'North', 'SOUTH')
+    dirs_ew = (None, 'W', 'e', 'West', 'EAST')
+
+    class CM:
+        def __init__(self, g):
+            self.g = g
+
+        def groupdict(self):
+            return dict(self.g)
+
+        def __getitem__(self, k):
+            return self.g[k]
+
+        def group(self, k=0):
+            return self.g.get(k, 'x')
+
+    which = ob.params['which']      # 'twp' or 'rge': the component whose number string is symbolic
+    alpha = alpha_t if which == 'twp' else alpha_r
+
+    def run(cs, ln, d, scrub, edge):
+        num = ''.join(choose(c, alpha) for c in cs[:choose(ln, range(1, L + 1))])
+        dd = choose(d, (None, 'N', 's', 'North') if which == 'twp' else (None, 'W', 'e', 'West'))
+        g = {'twpnum': num if which == 'twp' else '154', 'ns': dd if which == 'twp' else 'N',
+             'rgenum': num if which == 'rge' else '97', 'ew': dd if which == 'rge' else 'W'}
+        if has_edge:
+            g['rgenum_edgecase_rge2'] = None
+            if edge and which == 'rge':
+                g['rgenum'], g['rgenum_edgecase_rge2'] = None, '2'
+        if pname == 'pp_twprge_ocr_scrub':
+            scrub = True        # sub_scrubber unpacks matches of the OCR pattern with ocr_scrub=True only
+        out = unpack_twprge(CM(g), default_ns='s', default_ew='e', ocr_scrub=bool(scrub))
+        short = twprge_natural_to_short(out)
+        exp_ns = (g['ns'] or 's')[0].upper()
+        exp_ew = (g['ew'] or 'e')[0].upper()
+        return (isinstance(out, str) and out.startswith('T') and f'{exp_ns}-R' in out and out.endswith(exp_ew)
+                and isinstance(short, str))
+
+    if L == 2:
+        def target(c0: int, c1: int, ln: int, d: int, scrub: bool, edge: bool):
+            return run([c0, c1], ln, d, scrub, edge)
+    else:
+        def target(c0: int, c1: int, c2: int, ln: int, d: int, scrub: bool, edge: bool):
+            return run([c0, c1, c2], ln, d, scrub, edge)
+    st = explore(target, timeout=ob.params.get('cap', 900), max_viol=4)
+    info = dict(bound=f'{pname}: twpnum over {alpha_t!r}, rgenum over {alpha_r!r}, length 1..{L}, 5x5 direction spellings/absent, ocr_scrub on/off',
+                samples=[{'twpnum': alpha_t[-1] + '5', 'rgenum': '9' + alpha_r[-1], 'ocr_scrub': True}])
+    cl = lambda x, n: x if 0 <= x < n - 1 else n - 1
+
+    def mk(vs):
+        out = []
+        for v in vs:
+            a = v['args']
+            n = cl(a['ln'], L) + 1
+            num = ''.join(alpha[cl(a[f'c{i}'], len(alpha))] for i in range(n))
+            text = (f'T{num}N-R97W' if which == 'twp' else f'T154N-R{num}W') + ' Sec 14: NE/4'
+            out.append(violation('unpack_twprge-exception', f'unpack_twprge raises / mis-shapes for {which} number {num!r}, ocr_scrub={a["scrub"]}: {v["exc"]}',
+                                 'c03_plss', {'text': text, 'config': 'ocr_scrub' if (a['scrub'] or pname == 'pp_twprge_ocr_scrub') else ''}))
+        return out[:2]
+    return from_explore(st, info, mk)
+
+
 def obligations(tier):
     q = tier == 'quick'
     from props import plss_abs as P
@@ -218,7 +334,7 @@ def obligations(tier):
     if q:
         for sh, cfg in enumerate(CONFIGS[:4]):
             obs.append(Ob(f'soup_plss_{sh}', 'S', ob_soup, f'PLSSDesc on token sequences, config {cfg!r}', functions=S, weight=7,
-                          timeout=2400, params={'n': 3, 'toks': (0, 2, 3, 5, 6, 18), 'cfgs': (cfg,), 'what': 'plss', 'cap': 2100}))
+                          timeout=2400, params={'n': 3, 'toks': (0, 2, 3, 5, 6, 18, 24), 'cfgs': (cfg,), 'what': 'plss', 'cap': 2100}))
         obs.append(Ob('soup_tract', 'S', ob_soup, 'Tract on token sequences', functions=S[4:], weight=5, timeout=2400,
                       params={'n': 2, 'toks': (5, 6, 7, 8, 12, 16, 19, 20, 21, 22), 'cfgs': ('', 'clean_qq,suppress_lot_divs', 'qq_depth.1,break_halves'),
                               'what': 'tract', 'cap': 2100}))
@@ -231,6 +347,11 @@ def obligations(tier):
         obs.append(Ob('soup_tract', 'S', ob_soup, 'Tract on token sequences', functions=S[4:], weight=8, timeout=7000,
                       params={'n': 3, 'toks': (5, 6, 7, 8, 9, 11, 12, 16, 19, 20, 21, 22), 'cfgs': ('', 'clean_qq,suppress_lot_divs', 'qq_depth.1,break_halves'),
                               'what': 'tract', 'cap': 6500}))
+    for pname in ('twprge_regex', 'pp_twprge_ocr_scrub'):
+        for which in ('twp', 'rge'):
+            obs.append(Ob(f'unpack_twprge_{pname}_{which}', 'S', ob_unpack_twprge, f'unpack_twprge total over the {which} number class of {pname}',
+                          functions=['unpack_twprge', 'ocr_scrub_alpha_to_num', 'twprge_natural_to_short'], weight=5, timeout=3000,
+                          params={'pattern': pname, 'which': which, 'L': 2 if q else 3, 'cap': 2700}))
     obs.append(Ob('bad_arguments', 'S', ob_args, 'invalid arguments raise the documented exception types',
                   functions=['PLSSDesc.__init__', 'PLSSDesc.config', 'Tract.__init__', 'Tract.config', 'Config.__init__',
                              'Config.from_dict', 'unpack_twprge', 'TRS.construct_trs'], weight=1, timeout=600))
